@@ -355,8 +355,8 @@ class PersistScenario(StateScenario):
         rec.log("save", fname, fmt, sorted(opts), type(err).__name__ if err else "ok", len(secrets))
         rec.kind(fmt + (":ok" if err is None else ":err"))
         if err is not None:
-            if self.prop == "C02":
-                rec.fail("C02/save", "C02/save-raises/%s/%s" % (fmt, type(err).__name__),
+            if self.prop in ("C02", "C19"):
+                rec.fail("%s/save" % self.prop, "%s/save-raises/%s/%s" % (self.prop, fmt, type(err).__name__),
                          "saving a valid, representable state as %s raised %r" % (fmt, err))
             if self.prop == "C03" and secrets:
                 rec.fail("C03/save", "C03/save-raises/%s" % type(err).__name__, "saving a state with secrets raised %r" % (err,))
@@ -533,13 +533,13 @@ class PersistScenario(StateScenario):
                 rec.fail("C03/roundtrip", "C03/secret-not-recovered/key-file-assigned-to-sub-configuration-lost-on-load",
                          "a key file was assigned to a nested (sub)configuration before saving and again before loading; "
                          "the load replaced that configuration by a new object without the key file and failed: %s" % (err,))
-            if self.prop in ("C02", "C03"):
+            if self.prop in ("C02", "C03", "C19"):
                 rec.fail("%s/load" % self.prop, "%s/load-of-saved-document-raises/%s/%s" % (self.prop, doc["fmt"], type(err).__name__),
                          "loading the %s document saved in session %d into a fresh configuration raised %s: %s"
                          % (doc["fmt"], doc["session"], type(err).__name__, err))
             return
         rec.probe("loaded:" + doc["fmt"])
-        if self.prop == "C02":
+        if self.prop in ("C02", "C19"):
             got = self.view(st, fresh)
             want = doc["view"]
             if got != want:
@@ -547,7 +547,7 @@ class PersistScenario(StateScenario):
                 for k in keys:
                     if got.get(k, "<absent>") != want.get(k, "<absent>"):
                         kind = self.kind_at(st, fresh, k)
-                        rec.fail("C02/roundtrip", "C02/value-not-reproduced/%s/%s" % (doc["fmt"], kind),
+                        rec.fail("%s/roundtrip" % self.prop, "%s/value-not-reproduced/%s/%s" % (self.prop, doc["fmt"], kind),
                                  "after save(%s) + load in a fresh session %s is %r, it was %r"
                                  % (doc["fmt"], k, got.get(k, "<absent>"), want.get(k, "<absent>")))
         if self.prop == "C03":
